@@ -12,6 +12,10 @@ CONSTANTS
   MaxPauses = 2
   MaxFails = 2
   F7 = TRUE
+  InitSize = 3
+  MaxJoins = 0
+  MaxParts = 0
+  Trailing = 99
 INVARIANTS
   TypeOK
   LeaderComplete
